@@ -222,3 +222,181 @@ SAT_ASSUMPTIONS = {
     "C19": ["conversion chains up to length 4 over sized / slice / str / zero-sized targets; trait-object targets through unsize!",
             "the 'never conjures' clause is a programs-quantifier: it is decided by compile probes of each safe constructor (rustc is the judge), not by the model"],
 }
+
+
+# ============================================================================= TraceShape (C15, C16)
+SHAPES = os.path.join(ROOT, "shapes")
+
+DERIVE_PROBES = {
+    # name: (source, expected to be accepted)
+    "missing_mode": ("use gc_arena::Collect;\n#[derive(Collect)]\npub struct A { x: u32 }\n", False),
+    "missing_mode_twin": ("use gc_arena::Collect;\n#[derive(Collect)]\n#[collect(no_drop)]\npub struct A { x: u32 }\n", True),
+    "two_modes": ("use gc_arena::Collect;\n#[derive(Collect)]\n#[collect(no_drop, require_static)]\npub struct A { x: u32 }\n", False),
+    "same_mode_twice": ("use gc_arena::Collect;\n#[derive(Collect)]\n#[collect(no_drop, no_drop)]\npub struct A { x: u32 }\n", False),
+    "two_collect_attrs": ("use gc_arena::Collect;\n#[derive(Collect)]\n#[collect(no_drop)]\n#[collect(no_drop)]\npub struct A { x: u32 }\n", False),
+    "no_drop_with_drop_impl": ("use gc_arena::Collect;\n#[derive(Collect)]\n#[collect(no_drop)]\npub struct A { x: u32 }\nimpl Drop for A { fn drop(&mut self) {} }\n", False),
+    "unsafe_drop_with_drop_impl_twin": ("use gc_arena::Collect;\n#[derive(Collect)]\n#[collect(unsafe_drop)]\npub struct A { x: u32 }\nimpl Drop for A { fn drop(&mut self) {} }\n", True),
+    "require_static_on_branded_type": ("use gc_arena::{Collect, Gc};\n#[derive(Collect)]\n#[collect(require_static)]\npub struct A<'gc> { x: Gc<'gc, u32> }\npub fn use_it<'gc, T: Collect<'gc>>() {}\npub fn f<'gc>() { use_it::<'gc, A<'gc>>() }\n", False),
+    "require_static_on_static_type_twin": ("use gc_arena::Collect;\n#[derive(Collect)]\n#[collect(require_static)]\npub struct A { x: std::rc::Rc<u32> }\npub fn use_it<'gc, T: Collect<'gc>>() {}\npub fn f<'gc>() { use_it::<'gc, A>() }\n", True),
+    "require_static_field_on_branded_type": ("use gc_arena::{Collect, Gc};\n#[derive(Collect)]\n#[collect(no_drop)]\npub struct A<'gc> { #[collect(require_static)] x: Gc<'gc, u32> }\npub fn use_it<'gc, T: Collect<'gc>>() {}\npub fn f<'gc>() { use_it::<'gc, A<'gc>>() }\n", False),
+    "require_static_on_variant": ("use gc_arena::Collect;\n#[derive(Collect)]\n#[collect(no_drop)]\npub enum E { #[collect(require_static)] V(u32), W }\n", False),
+    "require_static_on_variant_field_twin": ("use gc_arena::Collect;\n#[derive(Collect)]\n#[collect(no_drop)]\npub enum E { V(#[collect(require_static)] u32), W }\n", True),
+    "field_not_collect": ("use gc_arena::Collect;\npub struct NotC;\n#[derive(Collect)]\n#[collect(no_drop)]\npub struct A { x: NotC }\n", False),
+    "field_not_collect_require_static_twin": ("use gc_arena::Collect;\npub struct NotC;\n#[derive(Collect)]\n#[collect(no_drop)]\npub struct A { #[collect(require_static)] x: NotC }\n", True),
+    "two_lifetimes_without_gc_lifetime": ("use gc_arena::{Collect, Gc};\nuse std::marker::PhantomData;\n#[derive(Collect)]\n#[collect(no_drop)]\npub struct A<'gc, 'a> { x: Gc<'gc, u32>, y: PhantomData<&'a ()> }\n", False),
+    "two_lifetimes_with_gc_lifetime_twin": ("use gc_arena::{Collect, Gc};\nuse std::marker::PhantomData;\n#[derive(Collect)]\n#[collect(no_drop, gc_lifetime = 'gc)]\npub struct A<'gc, 'a> { x: Gc<'gc, u32>, y: PhantomData<&'a ()> }\n", True),
+    "unknown_field_attribute": ("use gc_arena::Collect;\n#[derive(Collect)]\n#[collect(no_drop)]\npub struct A { #[collect(no_drop)] x: u32 }\n", False),
+}
+
+ASSERT = "use gc_arena::{Collect, Gc, GcWeak, Static};\npub fn is_collect<'gc, T: Collect<'gc> + ?Sized>() {}\n"
+STATIC_IMPL_PROBES = {
+    # impls with NEEDS_TRACE = false must not be instantiable with pointer-bearing parameters
+    "cell_of_gc": (ASSERT + "pub fn f<'gc>() { is_collect::<'gc, std::cell::Cell<Gc<'gc, u32>>>() }\n", False),
+    "cell_of_static_twin": (ASSERT + "pub fn f<'gc>() { is_collect::<'gc, std::cell::Cell<u32>>() }\n", True),
+    "refcell_of_gc": (ASSERT + "pub fn f<'gc>() { is_collect::<'gc, std::cell::RefCell<Vec<Gc<'gc, u32>>>>() }\n", False),
+    "refcell_of_static_twin": (ASSERT + "pub fn f<'gc>() { is_collect::<'gc, std::cell::RefCell<Vec<u32>>>() }\n", True),
+    "static_ref_to_gc": (ASSERT + "pub fn f<'gc>() { is_collect::<'gc, &'static Gc<'gc, u32>>() }\n", False),
+    "static_ref_twin": (ASSERT + "pub fn f<'gc>() { is_collect::<'gc, &'static str>() }\n", True),
+    "static_wrapper_of_gc": (ASSERT + "pub fn f<'gc>() { is_collect::<'gc, Static<Gc<'gc, u32>>>() }\n", False),
+    "static_wrapper_of_weak": (ASSERT + "pub fn f<'gc>() { is_collect::<'gc, Static<GcWeak<'gc, u32>>>() }\n", False),
+    "static_wrapper_twin": (ASSERT + "pub fn f<'gc>() { is_collect::<'gc, Static<std::rc::Rc<u32>>>() }\n", True),
+    "string_is_static_twin": (ASSERT + "pub fn f<'gc>() { is_collect::<'gc, String>() }\n", True),
+    "hashmap_with_branded_hasher": (ASSERT + "pub struct H<'gc>(Gc<'gc, u32>);\npub fn f<'gc>() { is_collect::<'gc, std::collections::HashMap<u32, u32, H<'gc>>>() }\n", False),
+}
+
+
+def shapes_model(d):
+    cfg = "SPECIFICATION Spec\nINVARIANTS Inv Emit\nCHECK_DEADLOCK FALSE\n"
+    r = run_tlc("MC_TraceShape", cfg, "shape", d, workers=4, timeout=900, xmx="4g")
+    if r["error"]:
+        raise ToolError(f"TLC run MC_TraceShape failed: {r['error']} (see {r['out']})")
+    f = os.path.join(d, "shape_grid.ndjson")
+    n, _ = extract_behaviours(r["out"], f)
+    os.remove(r["out"])
+    r["behaviours"] = n
+    return {"tlc": r, "grid": f}
+
+
+def shapes_engine(tier, d, grid):
+    import importlib.util
+    spec = importlib.util.spec_from_file_location("render_shapes", os.path.join(ROOT, "gen", "render_shapes.py"))
+    rs = importlib.util.module_from_spec(spec)
+    spec.loader.exec_module(rs)
+    t0 = time.time()
+    gen = os.path.join(SHAPES, "src", "generated.rs")
+    with Lock("cargo-shapes"):
+        rs.render(grid, gen)
+        lock_dst = os.path.join(SHAPES, "Cargo.lock")
+        if not os.path.exists(lock_dst):
+            import shutil
+            shutil.copy(os.path.join(gcv.REPO, "Cargo.lock"), lock_dst)
+        feature_sets = ["all"] if tier == "quick" else ["all", "", "hashbrown", "indexmap", "slotmap", "smallvec", "enum-map"]
+        shapes = [json.loads(l) for l in open(grid)]
+        runs = []
+        for fs in feature_sets:
+            cmd = ["cargo", "build", "--offline", "--quiet"] + (["--features", fs] if fs else [])
+            p = subprocess.run(cmd, cwd=SHAPES, stdout=subprocess.PIPE, stderr=subprocess.STDOUT, text=True)
+            if p.returncode != 0:
+                # the generated program does not compile against this tree: a provided impl is gone or its
+                # bounds changed.  That is not a property violation by itself (tool error).
+                raise ToolError(f"generated shapes crate does not build (features '{fs}'):\n" + p.stdout[-2500:])
+            q = subprocess.run([os.path.join(SHAPES, "target", "debug", "gcv-shapes")], stdout=subprocess.PIPE, stderr=subprocess.PIPE, text=True)
+            obs_path = os.path.join(d, f"shape_obs_{fs or 'none'}.ndjson")
+            crashed = q.returncode != 0
+            n = 0
+            with open(obs_path, "w") as f:
+                for line in q.stdout.splitlines():
+                    try:
+                        o = json.loads(line)
+                    except json.JSONDecodeError:
+                        continue
+                    f.write(json.dumps({"shape": shapes[o["id"]]["shape"], "obs": o}) + "\n")
+                    n += 1
+            cfg = "SPECIFICATION TSpec\nPOSTCONDITION Accepted\nCHECK_DEADLOCK FALSE\n"
+            r = run_tlc("ShapeTrace", cfg, f"shapemon_{fs or 'none'}", d, workers=1, timeout=1200, env={"TRACE": obs_path}, deque=True, xmx="4g")
+            txt = open(r["out"], errors="replace").read()
+            m = re.search(r'^<<"VERDICT", (".*")>>$', txt, re.M)
+            if not m or r["error"]:
+                raise ToolError(f"ShapeTrace did not accept the observations: {r['error']} (see {r['out']})")
+            v = json.loads(json.loads(m.group(1)))
+            runs.append({"features": fs or "(default only)", "records": n, "crashed": crashed, "viol": v["viol"], "c15": v["c15"], "c16": v["c16"],
+                         "obs": obs_path})
+    build_sat()   # for the rlib the compile probes link against
+    probes = {"C15": {}, "C16": {}}
+    for prop, table in (("C15", DERIVE_PROBES), ("C16", STATIC_IMPL_PROBES)):
+        for name, (src, expect_ok) in table.items():
+            ok, diag = probe_compile(src, name, os.path.join(d, "probes"))
+            probes[prop][name] = {"accepted": ok, "expected_accepted": expect_ok, "diag": "" if ok == expect_ok else diag[-500:]}
+    return {"runs": runs, "probes": probes, "wall_s": round(time.time() - t0, 1)}
+
+
+def check_shapes(prop, tier):
+    t0 = time.time()
+    files = ["TraceShape.tla", "MC_TraceShape.tla", "ShapeTrace.tla"]
+    skey = gcv._hash_paths([os.path.join(SPEC, f) for f in files])[:16]
+    model, md = memo("sat-shapes-model", skey, lambda d: shapes_model(d))
+    tkey = gcv._hash_paths([os.path.join(gcv.REPO, p) for p in ("src", "derive/src", "derive/Cargo.toml", "Cargo.toml", "Cargo.lock")]
+                           + [os.path.join(SPEC, f) for f in files] + [os.path.join(ROOT, "gen"), os.path.join(SHAPES, "src", "main.rs"),
+                              os.path.join(SHAPES, "Cargo.toml"), os.path.join(ROOT, "runner", "engines_sat.py")])[:16] + f"-{tier}"
+    res, d = memo("sat-shapes-" + tier, tkey, lambda dd: shapes_engine(tier, dd, model["grid"]))
+    viols = []
+    for run in res["runs"]:
+        for x in run["viol"]:
+            if x[0] == prop:
+                viols.append({"rule": x[1], "index": x[2], "features": run["features"], "obs": run["obs"]})
+            elif x[1].startswith("tool"):
+                raise ToolError(f"shape outside the specification's space: {x}")
+        if run["crashed"]:
+            viols.append({"rule": "crash", "index": run["records"] + 1, "features": run["features"], "obs": run["obs"]})
+    for name, pr in res["probes"][prop].items():
+        if pr["accepted"] != pr["expected_accepted"]:
+            viols.append({"rule": "probe:" + name, "index": 0, "diag": pr["diag"]})
+    os.makedirs(os.path.join(WORK, "replays"), exist_ok=True)
+    for x in viols[:6]:
+        rec = None
+        if x["index"] and os.path.exists(x.get("obs", "")):
+            with open(x["obs"]) as f:
+                for k, line in enumerate(f, 1):
+                    if k == x["index"]:
+                        rec = json.loads(line)
+        path = os.path.join(WORK, "replays", f"{prop}_shapes_{x['index']}_{x['rule'].replace(':', '-')}.json")
+        json.dump({"property": prop, "engine": "shapes", "rule": f"{prop}.{x['rule']}", "record": rec, "detail": {k: v for k, v in x.items() if k != 'obs'}},
+                  open(path, "w"), indent=1)
+        print(f"VIOLATION property={prop} replay={path}")
+    tl = model["tlc"]
+    nrec = sum(r[prop.lower()] for r in res["runs"])
+    samples = []
+    if res["runs"] and os.path.exists(res["runs"][0]["obs"]):
+        with open(res["runs"][0]["obs"]) as f:
+            for k, line in enumerate(f):
+                r_ = json.loads(line)
+                is15 = r_["shape"]["kind"] in ("struct", "enum")
+                if (prop == "C15") == is15 and k % 97 == 0 and len(samples) < 4:
+                    samples.append(r_)
+    cov = {
+        "states": tl["distinct"], "transitions": tl["generated"],
+        "traces_validated_against_impl": nrec - len([x for x in viols if x["index"]]),
+        "samples": samples or [{"note": "no sample"}],
+        "exhaustive": True,
+        "evaluations": nrec, "distinct_nontrivial": res["runs"][0][prop.lower()],
+        "rule": "every shape of TraceShape!Shapes (container x leaf per type parameter x element count; tuples of arity 1..16 with the "
+                "pointer at every position; derived structs / enums x field leaves x require_static positions x generics) is enumerated by "
+                "TLC, rendered to Rust, traced with a recording Trace implementation; shapes are distinct by construction",
+        "feature_sets": [{k: r[k] for k in ("features", "records", "c15", "c16")} for r in res["runs"]],
+        "compile_probes": {k: {kk: vv for kk, vv in v.items() if kk != "diag"} for k, v in res["probes"][prop].items()},
+        "model_invariants_checked": ["LawOK (a type that claims to need no tracing reports nothing; empty homogeneous containers report nothing)"],
+        "shared_run_memoised": res.get("memoised", False), "shared_run_wall_s": res["wall_s"],
+        "checker_cmd": "tlc MC_TraceShape.tla ; gen/render_shapes.py ; cargo build (shapes) ; gcv-shapes ; tlc ShapeTrace.tla ; rustc probes",
+    }
+    write_evidence(prop, tier, "model_checking", cov, SHAPE_ASSUMPTIONS[prop], time.time() - t0, len(viols))
+    return 1 if viols else 0
+
+
+SHAPE_ASSUMPTIONS = {
+    "C15": ["shapes: named / tuple / unit structs with up to 3 fields over 4 leaf kinds, every subset of require_static positions that type-checks, "
+            "generic first field with and without a bound override; enums with unit / tuple / named variants and each active variant",
+            "the derive's rejections are decided by rustc compile probes, each with an accepted twin; diagnostics are not matched textually"],
+    "C16": ["depth: containers of leaves, where a leaf may itself be Option<Gc>, Vec<Gc> or Box<GcWeak>; element counts 0..3; tuples of arity 1..16",
+            "quick tier builds all optional features at once; the thorough tier also builds each feature alone and none",
+            "'impls that claim no tracing exist only for pointer-free types' is decided by compile probes with accepted twins"],
+}
